@@ -77,6 +77,17 @@ def shards(tier):
 def run_shard(ctx):
     common.quiet_logging()
     res = common.Result()
+    if ctx.shard == 0:
+        # calibration of the simulated transport against the installed pyzmq (DESIGN 3.5); a mismatch is INCONCLUSIVE
+        try:
+            from ..simnet import calibrate
+            ok, rows = calibrate.compare()
+            res.count('calibration_experiments', len(rows))
+            res.count('calibration_agree', sum(1 for r in rows if r[1]))
+            if not ok:
+                res.inconclusive.append('simulated transport disagrees with real pyzmq: ' + '; '.join(f'{k}: real {r} sim {s_}' for k, same, r, s_ in rows if not same)[:500])
+        except Exception as e:
+            res.inconclusive.append(f'calibration could not run: {type(e).__name__}: {e}')
     n = 140 if ctx.quick else 6000
     for k in range(n):
         scn = gen(ctx, k)
